@@ -2231,6 +2231,7 @@ func (m *Msg) WriteTo(writer io.Writer) (int64, error) {
 
 	if m.hasSMIME() {
 		if err := m.signMessage(); err != nil {
+			m.headerCount = 0
 			return 0, err
 		}
 	}
@@ -2270,6 +2271,9 @@ func (m *Msg) WriteToSkipMiddleware(writer io.Writer, middleWareType MiddlewareT
 	mw := &msgWriter{writer: writer, charset: m.charset, encoder: m.encoder}
 	mw.writeMsg(m.applyMiddlewares(m))
 	m.middlewares = origMiddlewares
+	// writeMsg counts the header lines it writes. As in WriteTo, the counter has to be reset,
+	// otherwise a later S/MIME signing pre-render skips too many lines
+	m.headerCount = 0
 	return mw.bytesWritten, mw.err
 }
 
